@@ -3,3 +3,6 @@ import LettreVerif.Props.C17
 #print axioms LV.C17.one_entry_per_name
 #print axioms LV.C17.name_case_insensitive
 #print axioms LV.C17.date_time_of_day
+#print axioms LV.C17.date_roundtrip
+#print axioms LV.C17.date_injective
+#print axioms LV.C17.date_fields_in_range
